@@ -197,7 +197,7 @@ def write_evidence(mod, prop, tier, seed, results, confirmed, violations, known_
         wall_s=round(wall, 1),
         violations=len(violations),
     )
-    d = os.path.join(engine.ROOT, 'evidence')
+    d = os.environ.get('VERIF_EVIDENCE_DIR') or os.path.join(engine.ROOT, 'evidence')     # the override is a sizing / debugging aid, never set by the registered commands
     os.makedirs(d, exist_ok=True)
     with open(os.path.join(d, '%s.json' % prop), 'w') as f:
         json.dump(ev, f, indent=1, default=str)
